@@ -218,6 +218,23 @@ Section StoreProofs.
     destruct o; auto.
   Qed.
 
+  (* construction from the objects of another store yields an equal, independent value: same entries, same order *)
+  Lemma update_append s2 : forall s1, Inv (s1 ++ s2)%list -> update idof s1 (map snd s2) = ((s1 ++ s2)%list, OUnit).
+  Proof.
+    induction s2 as [|[k x] r IH]; intros s1 HI; cbn [map update snd].
+    - now rewrite app_nil_r.
+    - destruct HI as [Hnd Hid]. assert (Hk : idof x = k).
+      { rewrite Forall_forall in Hid. apply (Hid (k, x)). apply in_or_app. right. now left. }
+      pose proof (add_cases s1 x) as HA. rewrite Hk in HA.
+      assert (Hn : lookup s1 k = None).
+      { destruct (lookup s1 k) eqn:E; [|reflexivity]. exfalso. apply sassoc_in in E.
+        rewrite map_app in Hnd. cbn in Hnd. apply NoDup_remove_2 in Hnd. apply Hnd. apply in_or_app. now left. }
+      rewrite Hn in HA. rewrite HA. replace (s1 ++ (k, x) :: r)%list with ((s1 ++ [(k, x)]) ++ r)%list
+        by (rewrite <- app_assoc; reflexivity).
+      apply IH. rewrite <- app_assoc. cbn. split; assumption.
+  Qed.
+  Lemma construct_copy s : Inv s -> construct idof (iter s) = (s, OUnit).
+  Proof. intros HI. unfold construct, iter. now apply (update_append s []). Qed.
   Lemma Inv_step s o : Inv s -> Inv (fst (step idof s o)).
   Proof.
     intros HI. destruct o; cbn [step fst]; auto using Inv_add, Inv_discard, Inv_remove, Inv_pop, Inv_update.
@@ -283,6 +300,14 @@ Section StoreProofs.
       + apply IH. exact HR.
       + split; [exact HR|reflexivity].
     - rewrite H in *. cbn [fst] in HR. apply IH. exact HR.
+  Qed.
+
+  Lemma construct_refines xs :
+    (forall i, lookup (fst (construct idof xs)) i = fst (g_update gempty xs) i) /\
+    snd (construct idof xs) = snd (g_update gempty xs) /\ Inv (fst (construct idof xs)).
+  Proof.
+    unfold construct. destruct (update_refines xs [] gempty (fun _ => eq_refl)) as [H1 H2].
+    split; [exact H1|]. split; [exact H2|]. apply Inv_update. exact Inv_nil.
   Qed.
 
   Lemma step_refines s g o : Inv s -> abs_eq s g ->
